@@ -21,7 +21,8 @@ RULE = ("grid = every suite id in CipherSuite.ietfNames x versions SSLv3.."
         "and model/prf.py (stdlib hmac).  distinct = grid cell; non-trivial "
         "= pos cells that completed and had every sub-oracle evaluated, "
         "negative cells that produced a definite refusal"
-        " Extra cases: resume_other (TLS 1.3 session of suite A offered where only suite B can be negotiated: a PSK of another hash must not be accepted) and dualcert (RSA+ECDSA server via virtual_hosts x client signature-algorithm / suite restrictions: key type of the certificate on the wire == the suite's).")
+        " Extra cases: resume_other (TLS 1.3 session of suite A offered where only suite B can be negotiated: a PSK of another hash must not be accepted) and dualcert (RSA+ECDSA server via virtual_hosts x client signature-algorithm / suite restrictions: key type of the certificate on the wire == the suite's)."
+        ' odd_dh: master secret recomputed (model/prf.py) from the tapped premaster secret of a DHE handshake over a 1032-bit safe prime (odd-length secret, RFC 2246 s5).')
 LEVEL_TEXT = ("Exhaustive over the (suite, version, case) grid in both tiers "
               "(each cell is one deterministic simulated handshake plus a "
               "short data exchange); the thorough tier repeats the grid under "
